@@ -372,6 +372,14 @@ func (this *BWT) inverseBiPSIv2(src, dst []byte, count int) (uint, uint, error) 
 		return 0, 0, errors.New("Invalid input: corrupted BWT primary index")
 	}
 
+	// The primary indexes of the other chunks come from the stream too: an index
+	// beyond the block makes the bucket search of the chunk decoder spin forever
+	for i := 1; i < GetBWTChunks(count); i++ {
+		if this.PrimaryIndex(i) > uint(count) {
+			return 0, 0, errors.New("Invalid input: corrupted BWT primary index")
+		}
+	}
+
 	freqs := [256]int{}
 	internal.ComputeHistogram(src[0:count], freqs[:], true, false)
 	buckets := make([]int, 65536)
